@@ -101,8 +101,15 @@ class Terms:
         d = self.single_def(l)
         # a scalar flag/counter that is mutably borrowed can change behind its single assignment
         # (`let mut keep = true; buf.retain(|x| { keep = false; .. })`): keep it opaque
-        if d is not None and l in self.mut_borrowed and fn.locals[l].hk in ("bool", "int"):
-            d = None
+        if d is not None and l in self.mut_borrowed:
+            if fn.locals[l].hk in ("bool", "int"):
+                d = None
+            elif d[0] == "s":
+                # `let mut res = None; f(|x| res = Some(..))`: a literal-initialised local that is
+                # mutably borrowed is a mutable cell, not a value
+                r0 = fn.blocks[d[1]]["s"][d[2]]["r"]
+                if r0["k"] == "agg" or (r0["k"] == "use" and "k" in r0["o"]):
+                    d = None
         if d is None or depth > MAXDEPTH:
             t = ("var", l, name or "_%d" % l)
             self._memo[l] = t
